@@ -53,7 +53,7 @@ func drawC18(t *rapid.T, x *X) *Case {
 			j.Input = gspec.InvalidUTF8Edit(t, j.Input)
 		}
 		j.Opts.AllowInvalid = gspec.U(t, 3, "allowinvalid") == 0
-		j.Opts.Memoize = gspec.U(t, 3, "memo") == 0
+		j.Opts.Memoize = gspec.U(t, 3, "memo") == 0 && !g.HasStatePred() // (see Grammar.HasStatePred)
 		j.Opts.Stats = gspec.U(t, 4, "stats") == 0
 		if g.HasState && gspec.U(t, 2, "initstate") == 0 {
 			j.Opts.InitInts = map[string]int{"k1": gspec.U(t, 5, "initk1")}
@@ -78,10 +78,14 @@ type jobResult struct {
 	start, end  time.Time
 }
 
+// noMemo: the grammar has predicates on the state store (never parsed with Memoize, see
+// gspec.Grammar.HasStatePred).
+var noMemo = map[string]bool{}
+
 func runJob(pk PkgMeta, j *Job, safety uint64) *jobResult {
 	reg := vrt.Lookup(pk.Name)
 	ctx := vrt.NewCtx(j.Plan)
-	req := &vrt.Request{Entry: j.Entry, Filename: j.Opts.Filename, Input: j.Input, Memoize: j.Opts.Memoize && !pk.Optimized, Stats: j.Opts.Stats && !pk.Optimized,
+	req := &vrt.Request{Entry: j.Entry, Filename: j.Opts.Filename, Input: j.Input, Memoize: j.Opts.Memoize && !pk.Optimized && !noMemo[pk.Name], Stats: j.Opts.Stats && !pk.Optimized,
 		Debug:   j.Opts.Debug && !pk.Optimized, NoRecover: j.Opts.NoRecover,
 		MaxExpr: safety, InitState: initStateOf(j.Opts), Ctx: ctx, ViaReader: j.ViaReader, AllowInvalid: j.Opts.AllowInvalid}
 	if j.Opts.MaxExpr > 0 {
@@ -106,7 +110,7 @@ func runShared(pk PkgMeta, c *Case, safety uint64, concurrent bool) []*jobResult
 	j0 := &c.Jobs[0]
 	reqs := make([]*vrt.Request, len(c.Jobs))
 	for i := range c.Jobs {
-		reqs[i] = &vrt.Request{Entry: j0.Entry, Filename: c.Jobs[i].Opts.Filename, Input: c.Jobs[i].Input, Memoize: j0.Opts.Memoize && !pk.Optimized, MaxExpr: safety, AllowInvalid: j0.Opts.AllowInvalid}
+		reqs[i] = &vrt.Request{Entry: j0.Entry, Filename: c.Jobs[i].Opts.Filename, Input: c.Jobs[i].Input, Memoize: j0.Opts.Memoize && !pk.Optimized && !noMemo[pk.Name], MaxExpr: safety, AllowInvalid: j0.Opts.AllowInvalid}
 	}
 	start := time.Now()
 	resps := reg.RunShared(reqs, concurrent)
@@ -168,6 +172,9 @@ func checkC18(x *X, c *Case, strict bool) *Outcome {
 		}
 	}
 	for _, pk := range livePkgs(x.G) {
+		if g.HasStatePred() {
+			noMemo[pk.Name] = true
+		}
 		beginCase(x.G.ID, pk.Name, c)
 		if c.Aux["shared"] == 1 && vrt.Lookup(pk.Name).RunShared != nil {
 			old := runtime.GOMAXPROCS(c.Procs)
